@@ -264,3 +264,35 @@ func (g *BadA3CSRC) BindLocalStream(_ *interceptor.StreamInfo, w interceptor.RTP
 		return w.Write(h, p, a)
 	})
 }
+
+// ---- A1 through a helper ----------------------------------------------------------------------------------------------
+
+func fwdHelper(w interceptor.RTPWriter, h *rtp.Header, p []byte, a interceptor.Attributes) (int, error) {
+	if h == nil {
+		return 0, errReject
+	}
+	return w.Write(h, p, a)
+}
+
+type GoodA1Helper struct{ interceptor.NoOp }
+
+func (g *GoodA1Helper) BindLocalStream(_ *interceptor.StreamInfo, w interceptor.RTPWriter) interceptor.RTPWriter {
+	return interceptor.RTPWriterFunc(func(h *rtp.Header, p []byte, a interceptor.Attributes) (int, error) {
+		return fwdHelper(w, h, p, a)
+	})
+}
+
+func fwdHelperDrops(w interceptor.RTPWriter, h *rtp.Header, p []byte, a interceptor.Attributes) (int, error) {
+	if len(p) == 0 {
+		return 0, nil
+	}
+	return w.Write(h, p, a)
+}
+
+type BadA1Helper struct{ interceptor.NoOp }
+
+func (g *BadA1Helper) BindLocalStream(_ *interceptor.StreamInfo, w interceptor.RTPWriter) interceptor.RTPWriter {
+	return interceptor.RTPWriterFunc(func(h *rtp.Header, p []byte, a interceptor.Attributes) (int, error) {
+		return fwdHelperDrops(w, h, p, a)
+	})
+}
